@@ -128,6 +128,7 @@ type c15Res struct {
 	ok                            bool
 	nontriv                       bool
 	detail                        string
+	decoder                       string // Lean decoder id that applies (header or sniffed), "" = none
 	// a charset whose decoder keeps a shift state between characters (ISO-2022-JP) was sniffed:
 	// the pinned code then carries that state (but not the pending bytes) from the first chunk
 	// to the rest, which the stateless legacy model does not reproduce byte for byte
@@ -261,7 +262,7 @@ func c15Run(cs *c15Case) c15Res {
 		if sniffEnc != nil && hdrEnc == nil {
 			tblF.addFor(sniffEnc, cs.body)
 		}
-		if sniffEnc != nil && fmt.Sprint(sniffEnc) == "ISO-2022-JP" {
+		if sniffEnc != nil && c15EncName(sniffEnc) == "ISO-2022-JP" {
 			res.stateful = true
 		}
 		// pinned code: the sniffer sees the whole caller buffer (data + stale tail)
@@ -270,7 +271,7 @@ func c15Run(cs *c15Case) c15Res {
 		copy(p, first)
 		le, ln := charsets.FindEncoding(p)
 		preL.add(string(p), le, ln)
-		if le != nil && fmt.Sprint(le) == "ISO-2022-JP" {
+		if le != nil && c15EncName(le) == "ISO-2022-JP" {
 			res.stateful = true
 		}
 		if le != nil && hdrEnc == nil {
@@ -334,6 +335,11 @@ func c15Run(cs *c15Case) c15Res {
 		res.ok, res.detail = false, "stream never ended"
 	}
 	res.nontriv = sel && len(cs.body) > 0 && (hdrEnc != nil || sniffEnc != nil)
+	if sel && hdrEnc != nil {
+		res.decoder = "hdr-" + c15DecID(hdrEnc)
+	} else if sel && !hasCS && sniffEnc != nil {
+		res.decoder = "sniff-" + c15DecID(sniffEnc)
+	}
 	res.human = fmt.Sprintf("%s settings=%s ct=%q ae=%q body=%s segs=%d term=%s/lwt=%v bufs=%v tail=%d dirty=%x… -> %s %s %s",
 		cs.tag, cs.st.kind, cs.ct, cs.ae, c15Short(cs.body), len(cs.segs), c15TermName(cs.term), cs.lwt, cs.bufs, cs.tail,
 		cs.dirty[:min(4, len(cs.dirty))], c15Short(string(out)), term, kind)
@@ -640,6 +646,9 @@ func TestVerif_C15_read(t *testing.T) {
 		if !res.ok {
 			count("oracle-reject")
 		}
+		if res.decoder != "" {
+			count("decoder:" + res.decoder)
+		}
 	}
 	// classify with the model of the pinned tree
 	var fl, ll []string
@@ -672,7 +681,8 @@ func TestVerif_C15_read(t *testing.T) {
 	for _, must := range []string{"site:header", "site:metacharset", "site:metahttpequiv", "site:bom", "site:none", "site:conflict-meta",
 		"site:conflict-header", "site:decoy", "kind:mb", "kind:sb", "kind:u16le", "kind:u16be", "kind:utf8", "kind:utf8bom",
 		"impl-kind:raw", "impl-kind:hdr", "impl-kind:auto", "sniff:found", "sniff:nothing", "impl-term:eof", "impl-term:err",
-		"malformed:random-bytes", "malformed:mutated", "malformed:soup", "segmode:3", "segmode:4"} {
+		"malformed:random-bytes", "malformed:mutated", "malformed:soup", "segmode:3", "segmode:4",
+		"decoder:hdr-w1252", "decoder:hdr-u16le", "decoder:hdr-tbl", "decoder:sniff-w1252", "decoder:sniff-u16le", "decoder:sniff-u16be", "decoder:sniff-tbl"} {
 		if cnt[must] == 0 {
 			t.Errorf("generator never reached bucket %q", must)
 		}
